@@ -301,6 +301,103 @@ async fn rep_owes_reply(ctx: &mut Ctx, p: usize, j: u32, repeats: u32, case: &Va
     }
 }
 
+/// A long run of messages already on the connection, drained the way `now_or_never()` or a
+/// `select!` with an always-ready other branch does it: every recv future is polled once
+/// and dropped if it did not finish — hundreds of times within one poll of the task, so
+/// that whatever per-task budget the runtime keeps runs out along the way.
+async fn burst_drain(ctx: &mut Ctx, ty: &str, n: u32, npeers: usize, case: &Value) {
+    let mut sock = Sock::new(ty, None);
+    let mut peers = Vec::new();
+    for k in 0..npeers {
+        match Peer::attach(&sock, peer_type_for(ty), Some(format!("b{k}").as_bytes())).await {
+            Ok(p) => peers.push(p),
+            Err(e) => {
+                ctx.inconclusive(format!("C14 attach: {e}"));
+                return;
+            }
+        }
+    }
+    if ty == "SUB" {
+        let _ = sim::complete(sock.subscribe("")).await;
+    }
+    if ty == "REP" {
+        // lock-step: one request at a time is what REP accepts; the burst is n round trips
+    }
+    let per = n / npeers as u32;
+    for (k, p) in peers.iter().enumerate() {
+        if ty == "REP" {
+            continue;
+        }
+        for i in 0..per {
+            let payload = rc::tagged(k as u16, i, &[(i % 7) as usize]);
+            p.conn.feed(&rc::message(&wire_of(ty, &payload)));
+        }
+    }
+    sim::settle().await;
+    // from here on: no await until the burst is drained (one poll of this task)
+    let mut next = vec![0u32; npeers];
+    let mut got = 0u32;
+    let mut abandoned = 0u64;
+    let mut idle = 0;
+    while got < per * npeers as u32 && idle < 50 {
+        if ty == "REP" {
+            let k = (got as usize) % npeers;
+            let payload = rc::tagged(k as u16, next[k], &[2]);
+            peers[k].conn.feed(&rc::message(&wire_of(ty, &payload)));
+        }
+        let res = {
+            let mut rv = Managed::new(sock.recv());
+            rv.poll_once()
+        };
+        match res {
+            Poll::Ready(Ok(m)) => {
+                idle = 0;
+                let skip = if ty == "ROUTER" { 1 } else { 0 };
+                match rc::parse_tag(&m, skip) {
+                    Ok(t) if (t.origin as usize) < npeers && t.seq == next[t.origin as usize] => next[t.origin as usize] += 1,
+                    other => {
+                        ctx.violation_with(
+                            &format!("C14/lost-or-reordered/{ty}"),
+                            format!("draining a burst by polling each recv once: after {got} messages and {abandoned} abandoned calls got {other:?}, expected next per peer {next:?}"),
+                            case.clone(),
+                        );
+                        return;
+                    }
+                }
+                got += 1;
+                if ty == "REP" {
+                    let reply = rc::tagged(900, got, &[1]);
+                    let mut f = Managed::new(sock.send(&reply));
+                    let _ = f.poll_once();
+                }
+            }
+            Poll::Ready(Err(e)) => {
+                ctx.violation_with(&format!("C14/recv-error-after-drops/{ty}"), e, case.clone());
+                return;
+            }
+            Poll::Pending => {
+                abandoned += 1;
+                idle += 1;
+            }
+        }
+    }
+    ctx.add("recv_calls_abandoned_while_draining_a_burst", abandoned);
+    ctx.add("messages_drained_in_one_task_poll", got as u64);
+    if got < per * npeers as u32 {
+        // give everything a fair chance to surface before calling it lost
+        sim::settle().await;
+        let mut more = 0;
+        while let Some(Ok(_)) = recv_now(&mut sock).await {
+            more += 1;
+        }
+        ctx.violation_with(
+            &format!("C14/message-lost/{ty}"),
+            format!("{} messages were on the connections; polling each recv once returned {got} (then nothing for 50 polls, {abandoned} calls abandoned), {more} more after yielding: some are gone", per * npeers as u32),
+            case.clone(),
+        );
+    }
+}
+
 impl Prop for C14 {
     fn id(&self) -> &'static str {
         "C14"
@@ -324,6 +421,9 @@ impl Prop for C14 {
             if ty == "REQ" {
                 continue;
             }
+            for npeers in [1usize, 3] {
+                v.push(json!({"kind": "burst", "ty": ty, "n": 600, "peers": npeers}));
+            }
             for n in 1..=5usize {
                 for k in 0..tier.pick(100, 20_000) {
                     v.push(json!({"kind": "hist", "ty": ty, "peers": n, "per": 5, "late": k % 2, "leavers": false,
@@ -336,6 +436,12 @@ impl Prop for C14 {
 
     fn run(&self, case: &Value, ctx: &mut Ctx) {
         match s(case, "kind") {
+            "burst" => {
+                ctx.eval(hash_str(&case.to_string()), true);
+                ctx.sample("burst", || case.clone());
+                let ty = s(case, "ty").to_string();
+                sim::run(burst_drain(ctx, &ty, u(case, "n") as u32, u(case, "peers") as usize, case));
+            }
             "targeted_batch" => {
                 let ty = s(case, "ty").to_string();
                 let len = rc::message(&wire_of(&ty, &rc::tagged(1, 1, &[5, 0]))).len();
